@@ -437,17 +437,41 @@ def analyse_callers(rep: Report) -> None:
         rep.fail('R13.4', f'{MEDIA}::OnDemandMedia.get', 'absent range -> 400',
                  'the range-only handler does not refuse a request without Range with 400', get)
     # data only read for 206
-    guarded = False
-    for n in ast.walk(get):
-        if isinstance(n, ast.If) and norm(n.test) in ('status == 206', '206 == status'):
-            if any(isinstance(c, ast.Call) and isinstance(c.func, ast.Attribute)
-                   and c.func.attr == 'read' for c in ast.walk(n)):
-                guarded = True
-    if guarded:
-        rep.ok('R13.4', f'{MEDIA}::OnDemandMedia.get', 'read only when 206')
+    # every file read lies on paths whose condition implies status == 206 (guard, early return, ...)
+    from ..pathcond import PathCond, entails as pc_entails, show as pc_show
+    from ..flow import Disjunctive, Flow
+    pcd = PathCond()
+    reads: list = []
+    unguarded: list = []
+
+    def on_stmt(st, states):
+        if isinstance(st, (ast.If, ast.While)):
+            roots = [st.test]
+        elif isinstance(st, ast.With):
+            roots = [i.context_expr for i in st.items]
+        elif isinstance(st, (ast.For, ast.Try)):
+            roots = []
+        else:
+            roots = [st]
+        for root in roots:
+            for x in ast.walk(root):
+                if isinstance(x, ast.Call) and isinstance(x.func, ast.Attribute) and \
+                        x.func.attr in ('read', 'open_file'):
+                    reads.append(x)
+                    for state in states:
+                        if not any(pc_entails(state[0], ('atom', t)) is True
+                                   for t in ('status == 206', '206 == status')):
+                            unguarded.append((x, state))
+    Flow(Disjunctive(pcd, cap=256), on_stmt=on_stmt).run(get, [PathCond.initial()])
+    if not reads:
+        raise AnalysisError('OnDemandMedia.get: no file read found')
+    if not unguarded:
+        rep.ok('R13.4', f'{MEDIA}::OnDemandMedia.get', 'read only when 206', f'{len(reads)} read/open call(s)')
     else:
+        x, state = unguarded[0]
         rep.fail('R13.4', f'{MEDIA}::OnDemandMedia.get', 'read only when 206',
-                 'file read is not guarded by status == 206', get)
+                 f'`{short(x, 60)}` is reached on a path that does not imply status == 206 '
+                 f'(path condition: {pc_show(state[0])[:100]})', x)
 
 
 def range_readers(rep: Report) -> None:
